@@ -97,3 +97,54 @@ pub fn new_random_plain() -> (oauth2::PkceCodeChallenge, oauth2::PkceCodeVerifie
     let (_, v) = oauth2::PkceCodeChallenge::new_random_sha256();
     (plain_challenge(&v), v)
 }
+
+/// a standard revocable token obtained in one of the ways the API offers: the enum constructor, the `From` conversions
+/// (owned and by reference — the idiom of the crate's documentation), or back from its own serialised form
+pub fn make_revocable(text: &str, refresh: bool, how: u64) -> oauth2::StandardRevocableToken {
+    use oauth2::{AccessToken, RefreshToken, StandardRevocableToken};
+    let direct = if refresh { StandardRevocableToken::RefreshToken(RefreshToken::new(text.to_string())) } else { StandardRevocableToken::AccessToken(AccessToken::new(text.to_string())) };
+    match how % 4 {
+        1 => {
+            if refresh {
+                RefreshToken::new(text.to_string()).into()
+            } else {
+                AccessToken::new(text.to_string()).into()
+            }
+        }
+        2 => {
+            if refresh {
+                (&RefreshToken::new(text.to_string())).into()
+            } else {
+                (&AccessToken::new(text.to_string())).into()
+            }
+        }
+        3 => serde_json::from_str(&serde_json::to_string(&direct).unwrap()).expect("a serialised revocable token reads back"),
+        _ => direct,
+    }
+}
+
+/// the reply with headers that NO property gives a meaning to (only status, Content-Type and body count): a wrong or right
+/// Content-Length, Retry-After, Content-Encoding, caching and diagnostic headers. `salt` picks which.
+pub fn with_irrelevant_headers(mut resp: HttpResponse, salt: u64) -> HttpResponse {
+    let n = resp.body().len();
+    let h = resp.headers_mut();
+    let mut add = |k: &'static str, v: String| {
+        h.append(http::header::HeaderName::from_static(k), http::HeaderValue::from_str(&v).unwrap());
+    };
+    if salt & 1 == 1 {
+        add("retry-after", ["0", "1", "120", "Wed, 21 Oct 2015 07:28:00 GMT"][(salt >> 8) as usize % 4].to_string());
+    }
+    if salt & 2 == 2 {
+        add("content-length", [n.to_string(), (n + 7).to_string(), "0".to_string(), (n / 2).to_string()][(salt >> 10) as usize % 4].clone());
+    }
+    if salt & 4 == 4 {
+        add("content-encoding", ["identity", "gzip", "br"][(salt >> 12) as usize % 3].to_string());
+    }
+    if salt & 8 == 8 {
+        add("cache-control", "no-store".to_string());
+        add("pragma", "no-cache".to_string());
+        add("x-request-id", format!("{salt:x}"));
+        add("www-authenticate", "Bearer error=\"invalid_token\"".to_string());
+    }
+    resp
+}
